@@ -105,9 +105,12 @@ def expect(chk, rule, construct, av, loc=None, atoms=(R, DT), **exp):
         out.append(chk.ob(rule, "%s[%s]" % (construct, what), want, ok, derived=derived, loc=loc,
                           inconclusive=(not ok and indef)))
     if av is None:
-        ob("value", "a value", False, "no value derived")
+        ob("value", "a value", False, "no value derived", indef=True)
         return out
-    ind = av.indef
+    # a value whose structure the engine lost (unknown kind, an array of unknown shape) is *imprecisely known*: what is not derived for it is
+    # not a fact about the code (joins of differently spelled paths, fast paths with fall-backs, buffers filled piecewise); only a definite
+    # contradicting component (another length, another kind, another degree ...) refutes
+    ind = av.indef or av.kind == K_TOP or (av.kind == K_ARRAY and (av.shape is None or any(d_ is None for d_ in av.shape)))
     for key, want in exp.items():
         if key == "length":
             w = LinExpr(want)
@@ -120,23 +123,23 @@ def expect(chk, rule, construct, av, loc=None, atoms=(R, DT), **exp):
         elif key == "lin":
             for at in want:
                 a = av.a(at)
-                ob("lin:" + at, "linear in " + at, a[0] in ("lin", "zero"), alg_str(a), indef=is_top(a) and not a[1])
+                ob("lin:" + at, "linear in " + at, a[0] in ("lin", "zero"), alg_str(a), indef=is_top(a) and (not a[1] or ind))
         elif key == "const_in":
             for at in want:
                 a = av.a(at)
                 ob("const:" + at, "independent of " + at, a[0] in ("const", "zero"), alg_str(a),
-                   indef=is_top(a) and not a[1])
+                   indef=is_top(a) and (not a[1] or ind))
         elif key == "deg":
             for at, k in want.items():
                 a = av.a(at)
                 d = alg_degree(a)
                 ob("deg:" + at, "degree %r in %s" % (Exp(k), at), d == "any" or (d is not None and d == Exp(k)),
-                   alg_str(a), indef=is_top(a) and not a[1])
+                   alg_str(a), indef=is_top(a) and (not a[1] or ind))
         elif key == "parity":
             for at, p in want.items():
                 a = av.a(at)
                 d = alg_parity(a)
-                ob("parity:" + at, "%s in %s" % (p, at), d in ("any", p), alg_str(a), indef=is_top(a) and not a[1])
+                ob("parity:" + at, "%s in %s" % (p, at), d in ("any", p), alg_str(a), indef=is_top(a) and (not a[1] or ind))
         elif key == "sign":
             ok = {"nonneg": is_nonneg(av.sign), "pos": av.sign == S_POS, "zero": av.sign == S_ZERO,
                   "nonpos": av.sign in (S_ZERO, S_NEG, S_NONPOS)}[want]
